@@ -24,7 +24,10 @@ def run(prog, chk):
     chk.rule('R19.3', 'both resolvers use the documented ordered roots and take the first hit')
     chk.rule('R19.4', 'wildcard directory listings are filtered to .bloch and sorted')
     chk.rule('R19.5', 'main count 0 and >1 are Semantic errors')
-    lm = prog.fn('ModuleLoader::loadModule')
+    from ..kcanon import inline_closures
+    # a loadModule split into local closures (`auto loadSymbolImport = [&](…) {…}; … loadSymbolImport(*imp);`) is analysed with
+    # those closures inlined at their call statements
+    lm = inline_closures(prog, prog.fn('ModuleLoader::loadModule'))
     ld = prog.fn('ModuleLoader::load')
     rec = prog.record('ModuleLoader')
     fields = {f['name']: f['type'] for f in rec['fields']}
@@ -184,17 +187,20 @@ def run(prog, chk):
     for name in ('resolveImportPath', 'resolvePackageModules'):
         f = prog.fn('ModuleLoader::' + name)
         gg = prog.cfg(f)
-        seq = _roots_sequences(f, gg)
+        bf, fromdir, partsid = _roots_builder(prog, f)
+        seq = _roots_sequences(bf, prog.cfg(bf), fromdir)
         seqs[name] = seq
         want = {True: ['search', 'from', 'cwd'], False: ['from', 'search', 'cwd']}
         chk.ob('R19.3', f, f.ln, seq == want, '%s root order: bloch.* → %s, otherwise → %s (documented: search paths first only for bloch.*)' % (name, seq.get(True), seq.get(False)),
                key='roots:' + name)
         # prefer flag definition
-        pv = [n for n in SX.walk(f.body) if n['k'] == 'var' and n['type'] == 'bool' and SX.is_node(n.get('init'))]
-        okp = any('front()' in SX.show(v['init']) and '"bloch"' in SX.show(v['init']) and ('==' in SX.show(v['init'])) for v in pv)
+        pv = [n for n in SX.walk(bf.body) if n['k'] == 'var' and n['type'] in ('bool', 'const bool') and SX.is_node(n.get('init'))]
+        okp = any('front()' in SX.show(v['init']) and '"bloch"' in SX.show(v['init']) and ('==' in SX.show(v['init']))
+                  and any(x['k'] == 'ref' and x.get('id') == partsid for x in SX.walk(v['init'])) for v in pv)
         chk.ob('R19.3', f, f.ln, okp, '%s: search-path preference is decided by first component == "bloch"' % name, key='prefer:' + name)
         # first hit wins: a return inside the loop over the roots
-        loops = [n for n in SX.walk(f.body) if n['k'] == 'forrange' and SX.is_node(SX.strip(n['range'])) and SX.strip(n['range']).get('k') == 'ref']
+        loops = [n for n in SX.walk(f.body) if n['k'] == 'forrange' and SX.is_node(SX.strip(n['range'])) and
+                 (SX.strip(n['range']).get('k') == 'ref' or (bf is not f and SX.strip(n['range']).get('k') == 'call' and SX.strip(n['range']).get('callee') == bf.name))]
         first = any(any(x['k'] == 'return' for x in SX.walk(lp['body'], into_lambdas=False)) for lp in loops)
         chk.ob('R19.3', f, f.ln, first, '%s returns at the first root that has the module' % name, key='first-hit:' + name)
     # resolution is a pure function of (name, importing directory, configured search paths, working directory)
@@ -247,14 +253,42 @@ def run(prog, chk):
     chk.ob('R19.5', ld, ld.ln, okc, 'main counter is incremented exactly for functions named "main"', key='main-count')
 
 
-def _roots_sequences(f, g):
+def _roots_builder(prog, f):
+    """the function that builds the root list for resolver f: f itself, or a file-local helper whose result f's root loop iterates
+    (`for (base : searchBases(parts, fromDir, m_searchPaths))`) — then with the helper's parameters standing for the name parts, the
+    importing directory and the configured search paths.  → (function, id of the importing-directory variable, id of the parts variable)"""
+    if any(n['k'] == 'var' and 'std::vector<std::filesystem' in n['type'] for n in SX.walk(f.body)):
+        return f, f.params[1]['id'], f.params[0]['id']
+    for lp in SX.walk(f.body, into_lambdas=False):
+        if lp['k'] != 'forrange':
+            continue
+        rng = SX.strip(lp['range'])
+        if not (SX.is_node(rng) and rng.get('k') == 'call'):
+            continue
+        hs = [h for h in prog.resolve(rng) if h.body and h.file == f.file]
+        if len(hs) != 1:
+            continue
+        h = hs[0]
+        args = [SX.strip(a) for a in SX.real_args(rng)]
+        fromp = [p_ for p_, a in zip(h.params, args) if SX.is_node(a) and a.get('k') == 'ref' and a.get('id') == f.params[1]['id']]
+        partp = [p_ for p_, a in zip(h.params, args) if SX.is_node(a) and a.get('k') == 'ref' and a.get('id') == f.params[0]['id']]
+        cfgp = [p_ for p_, a in zip(h.params, args) if SX.is_this_member(a)]
+        if len(fromp) == 1 and len(partp) == 1 and len(cfgp) == 1 and len(args) == 3:
+            return h, fromp[0]['id'], partp[0]['id']
+        if any('std::vector<std::filesystem' in n['type'] for n in SX.walk(h.body) if n['k'] == 'var'):
+            # the helper builds the list but is not handed exactly (name parts, importing directory, configured paths): the roots
+            # it returns are then not the documented ones — reported through the root-order obligation (no 'from' root is found)
+            return h, (fromp[0]['id'] if len(fromp) == 1 else None), (partp[0]['id'] if len(partp) == 1 else None)
+    raise AnalysisBroken('%s: local root list not found' % f.short)
+
+
+def _roots_sequences(f, g, fromdir):
     """{prefer(True/False): ['search'|'from'|'cwd', ...]} — order in which roots are appended to the local base list"""
     out = {}
     base_vars = [n for n in SX.walk(f.body) if n['k'] == 'var' and 'std::vector<std::filesystem' in n['type']]
     if len(base_vars) != 1:
         raise AnalysisBroken('%s: local root list not found' % f.short)
     bid = base_vars[0]['id']
-    fromdir = f.params[1]['id']
     adds = []
     for c in g.calls(lambda e: e['k'] == 'mcall' and SX.short(e['callee']) in ('push_back', 'emplace_back') and SX.is_node(e.get('obj')) and e['obj'].get('id') == bid):
         a = SX.real_args(c.e)[0]
@@ -274,7 +308,7 @@ def _roots_sequences(f, g):
     for pol in (True, False):
         seq = []
         for p, kind, c in adds:
-            if p == pol and (not seq or seq[-1] != kind):
+            if (p is None or p == pol) and (not seq or seq[-1] != kind):
                 seq.append(kind)
         out[pol] = seq
     # the search-path appends must iterate the configured search-path member in order
